@@ -924,6 +924,11 @@ def check_aux(run, lst, ob):
     for nme, ss in by_name.items():
         if len(ss) > 1:
             viol.append({"key": "aux:duplicate-symbol-name", "msg": nme})
+    for nme, same in getattr(bu, "extern_lookups", []):
+        ctr["extern_lookups"] = ctr.get("extern_lookups", 0) + 1
+        if not same:
+            viol.append({"key": "aux:extern-lookup-returned-another-symbol",
+                         "msg": nme})
     size_by_iv = {}
     for off, sz in sizes.items():
         size_by_iv.setdefault(id(off.element_id), {})[off.displacement] = sz
